@@ -119,3 +119,22 @@ Section Roty.
     - destruct d as [|[|[|d]]]; try lia; unfold roty; cbn [mk3]; rops; unfold Rdiv; ring.
   Qed.
 End Roty.
+
+(* C09: the scaling (B^2, B, B) that ScaleToPrandtlGlauert applies to the rigid-rotation onset velocity omega x (r - cg)
+   (expressed in wind axes) makes it, in the Prandtl-Glauert domain, the velocity field of a rigid rotation again: about the
+   transformed point, with rate (omega_x, B omega_y, B omega_z).  Any other choice of the three factors (e.g. B for all
+   components) does not. *)
+Lemma pg_rotvel_is_rigid_rotation M (w r : nat -> R) d : (d < 3)%nat ->
+  pg_rotvel M (cross w r) d = cross (pg_point M w) (pg_point M r) d.
+Proof.
+  intros Hd. unfold pg_rotvel, pg_point, cross, mk3; rops.
+  destruct d as [|[|[|d]]]; try lia; cbn [Nat.eqb]; ring.
+Qed.
+
+Lemma uniform_scaling_is_not M : betaPG M <> 0 -> betaPG M <> 1 ->
+  exists (w r : nat -> R), cross w r 0%nat * betaPG M <> cross (pg_point M w) (pg_point M r) 0%nat.
+Proof.
+  intros H0 H1. exists (mk3 0 1 0), (mk3 0 0 1). unfold cross, pg_point, mk3; rops. cbn [Nat.eqb].
+  intros E. apply H1. assert (betaPG M * (betaPG M - 1) = 0) by nra.
+  apply Rmult_integral in H. destruct H; [contradiction | lra].
+Qed.
